@@ -2,7 +2,7 @@
 
    Since repair 415ff77 (F15-16) core.parse marks every Name node whose identifier the file binds itself
    (core._REBOUND_NAMES); `_literal_value` calls builtins.<f> only through a Name that is not marked, and since
-   repair f968b0f (F15-22) an expression that calls a marked name anywhere never reaches ast.literal_eval
+   repair 82d6460 (F15-22) an expression that calls a marked name anywhere never reaches ast.literal_eval
    (which reads `set()` as the empty set).  LitValModel.lv is the model for a file that rebinds nothing; [lv_rb rb]
    is the model for a file that binds the names [rb].  There is NO other input: no cache, no call history
    (seed C15-d memoised results by ast.dump(expression) across files; the harness runs every case in both
@@ -33,7 +33,7 @@ Fixpoint calls_rebound (rb : list string) (e : expr) : bool :=
       existsb (calls_rebound rb) args || existsb (fun p => calls_rebound rb (snd p)) kws
   end.
 
-(* the last line of _literal_value, behind the guard of f968b0f *)
+(* the last line of _literal_value, behind the guard of 82d6460 *)
 Definition leval_rb (rb : list string) (e : expr) : res val :=
   if calls_rebound rb e then Exc KValue else leval e.
 
